@@ -15,7 +15,12 @@
  *   after every operation (contents preservation across growth).
  *
  * Lines:  init <cap> <bs> | alloc | free <k> | ensure <n> | flag <v> |
- *         maxdelta <v> | failnext <k> | destroy
+ *         maxdelta <v> | failnext <k> | destroy | wrapprobe <cap> <mdc>
+ * wrapprobe: a pool of >= 2^31 blocks needs a 16 GiB pointer ring, so the state
+ *   "full pool whose capacity + growth step wraps uint32" is synthesised by
+ *   writing the public struct fields capacity/used/max_delta_cap around one
+ *   call of muggle_memory_pool_alloc (fields restored afterwards); only run
+ *   when the sum really wraps, so ensure_space never touches the ring.
  * Every state line ends with  cap=<capacity> used=<used> nslab=<num_buf> lastsz=<bytes of last slab>
  */
 #include "vdrv.h"
@@ -252,6 +257,25 @@ static void case_line(char *line)
 		sscanf(line, "%*s %llu", &a);
 		muggle_memory_pool_set_max_delta_cap(&pool, (uint32_t)a);
 		printf("maxdelta %u\n", pool.max_delta_cap);
+	} else if (strcmp(op, "wrapprobe") == 0) {
+		sscanf(line, "%*s %llu %llu", &a, &b);
+		uint64_t delta = a;
+		if (b > 0 && delta > b) delta = b;
+		if (a == 0 || a > 0xffffffffULL || a + delta < 0x100000000ULL || pool.used >= pool.capacity) {
+			printf("wrapprobe skip\n");
+			return;
+		}
+		muggle_memory_pool_t saved = pool;
+		pool.capacity = (uint32_t)a; pool.used = (uint32_t)a; pool.max_delta_cap = (uint32_t)b;
+		op_begin();
+		fail_at = 1;
+		void *p = muggle_memory_pool_alloc(&pool);
+		op_end();
+		int same_arrays = pool.memory_pool_ptr_buf == saved.memory_pool_ptr_buf &&
+			pool.memory_pool_data_bufs == saved.memory_pool_data_bufs && pool.num_buf == saved.num_buf;
+		pool = saved;
+		printf("wrapprobe %s%s\n", p ? "BLOCK" : "NULL", same_arrays ? "" : " ARRAYS-CHANGED");
+		return;
 	} else if (strcmp(op, "destroy") == 0) {
 		drop_pool();
 		return;
